@@ -57,8 +57,9 @@ def canonical(mol, start=0):
     return atoms, inters, mol.nrexcl
 
 
-TRANSFORMS_T = list(itertools.product(["reversed ints", "large ints", "strings", "scrambled"], ["same", "reversed"],
-                                      ["same", "flipped and reversed"], ["same", "blocks swapped", "links reversed", "links before blocks"]))
+TRANSFORMS_T = [t for i, t in enumerate(itertools.product(["reversed ints", "large ints", "strings", "scrambled"], ["same", "reversed"],
+                                                          ["same", "flipped and reversed"], ["same", "blocks swapped", "links reversed", "links before blocks"]))
+                if i % 4 == (i // 16) % 4]
 TRANSFORMS_Q = [("reversed ints", "same", "same", "same"), ("large ints", "reversed", "same", "links reversed"),
                 ("strings", "same", "flipped and reversed", "blocks swapped"), ("scrambled", "reversed", "flipped and reversed", "links before blocks"),
                 ("scrambled", "same", "same", "links reversed"), ("strings", "reversed", "same", "same")]
